@@ -153,9 +153,11 @@ fn byzantine<B: SimField, E: FieldElement<BaseField = B>, H: ElementHasher<BaseF
                 let i = rng.below(domain as u64) as usize;
                 f[i] += E::ONE + rand_elem::<E>(&mut rng);
             }
-            // far from every low-degree polynomial only when the corrupted fraction is large;
-            // with few corrupted points acceptance is decided by the reference verifier alone
-            (f, frac * 4 >= domain, format!("degree-{max_degree} polynomial corrupted at ~{frac} of {domain} points"))
+            // Acceptance of a corrupted low-degree function is a matter of which positions are
+            // queried (FRI's soundness error: with one query on a 16-point domain the honest
+            // remainder check passes whenever the corrupted indices have the parity of the queried
+            // one), so it is decided by the reference verifier alone, never asserted.
+            (f, false, format!("degree-{max_degree} polynomial corrupted at ~{frac} of {domain} points"))
         },
         3 => {
             // control: genuinely low degree
@@ -171,7 +173,9 @@ fn byzantine<B: SimField, E: FieldElement<BaseField = B>, H: ElementHasher<BaseF
         },
     };
     let layers = cfg.layers();
-    let strategy = match ch.weighted("strategy", &[5, 3, if layers > 0 { 3 } else { 0 }, if layers > 0 { 2 } else { 0 }, if layers > 0 { 2 } else { 0 }, 3, 2]) {
+    // (an over-long remainder must still fit the u16 length prefix of the wire form)
+    let s5_ok = domain * E::ELEMENT_BYTES < 60_000;
+    let strategy = match ch.weighted("strategy", &[5, 3, if layers > 0 { 3 } else { 0 }, if layers > 0 { 2 } else { 0 }, if layers > 0 { 2 } else { 0 }, if s5_ok { 3 } else { 0 }, 2]) {
         0 => Strategy::Honest,
         1 => Strategy::S1AdaptiveRemainder,
         2 => Strategy::S2TamperValue { layer: ch.index("s2.layer", layers), index: ch.index("s2.index", domain) },
